@@ -55,9 +55,12 @@ Definition start_offset (s : bytes) (i : Z) : option Z :=
   else if i >? blen s then None
   else rune_offset (Z.to_nat i) s 0.
 
+Definition is_nil (b : bytes) : bool := match b with [] => true | _ => false end.
+
 Definition find_from (last : bool) (value sub start : value) : outcome Json.Value.value :=
   do s <- str_arg value; do p <- str_arg sub;
   do i <- int_arg start;
+  if is_nil s || is_nil p then Ok VNull else
   match start_offset s i with
   | None => Ok VNull
   | Some i =>
@@ -77,6 +80,7 @@ Definition find_between (last : bool) (value sub start finish : value) : outcome
            if negb fnum then Err EInvalidType else
            match to_decimal start with None => Err EInvalidType | Some _ => Err EIntegerConversion end);
   do j <- int_arg finish;
+  if is_nil s || is_nil p then Ok VNull else
   match start_offset s i with
   | None => Ok VNull
   | Some i =>
